@@ -501,7 +501,7 @@ func (p *C08) Check(sc *scen.Scenario, run *orch.Run, env *orch.Env) []orch.Viol
 			add("C08.corrupt", kind, "record of call %s (task %d, logger %d, %s): attribute set differs from the call's own: expected [%s] got [%s]", tk, c.task, c.op.L, fmtNames[l.format], strings.Join(ws, " "), strings.Join(gs, " "))
 		}
 		if l.format != fmtColor {
-			if lv, ok := levelField(e.P); ok && lv != model.LevelName(c.op.Lvl) {
+			if lv, ok := levelField(e.P); ok && lv != worldLevelName(run, c.op.Lvl) {
 				add("C08.corrupt", "level", "record of call %s carries level %q, the call was issued at %s", tk, lv, model.LevelName(c.op.Lvl))
 			}
 		}
